@@ -82,6 +82,9 @@ int lastCrashPhase() { return g_lastPhase; }
 size_t runForkedCases(size_t n, const std::string& outPath, int secondsPerCase, const std::function<void(size_t, std::string&)>& fn,
 					  const std::function<void(size_t, const std::string&, FILE*)>& onCrash, size_t memLimitMB) {
 	size_t start = 0, crashes = 0, timeouts = 0;
+	// a wall-clock limit that fires once on a loaded machine is not a hang: the case is run again, first in a fresh child and
+	// with four times the limit; only a second timeout of the same case is reported
+	size_t retryAt = (size_t) -1;
 	const char* mt = getenv("NVH_MAX_TIMEOUTS");
 	size_t maxTimeouts = mt && *mt ? strtoul(mt, nullptr, 10) : 12;
 	std::string markPath = outPath + ".mark";
@@ -107,7 +110,7 @@ size_t runForkedCases(size_t n, const std::string& outPath, int secondsPerCase, 
 					if (pwrite(mfd, &v, sizeof v, 0) != (ssize_t) sizeof v) { rc = 96; break; }
 					g_markFd = mfd;
 					markPhase(0);
-					alarm(secondsPerCase);
+					alarm(i == retryAt ? (unsigned) secondsPerCase * 4u : (unsigned) secondsPerCase);
 					std::string buf;
 					fn(i, buf);          // a case's output reaches the file only when the case completed
 					fwrite(buf.data(), 1, buf.size(), out);
@@ -141,6 +144,12 @@ size_t runForkedCases(size_t n, const std::string& outPath, int secondsPerCase, 
 				if (pread(mfd, &ph, sizeof ph, 8) == (ssize_t) sizeof ph) g_lastPhase = (int) ph;
 				close(mfd);
 			}
+		}
+		if (why == "Timeout" && (size_t) at != retryAt) {
+			retryAt = (size_t) at;
+			start = (size_t) at;
+			fprintf(stderr, "runForkedCases: case %zu timed out once, run again\n", (size_t) at);
+			continue;
 		}
 		crashes++;
 		FILE* out = fopen(outPath.c_str(), "a");
